@@ -9,7 +9,9 @@ from . import common, zonescommon as zc
 from rtc import runner, native, pyzones
 from contracts import pyref
 
-CPP_PAIRS = ['ace_time::ExtendedZoneProcessor::getMostRecentPriorYear(signed char, signed char, signed char, signed char)',
+CPP_PAIRS = ['ace_time::ExtendedZoneProcessor::compareTransitionToMatch(ace_time::extended::Transition const*, ace_time::extended::ZoneMatch const*)',
+             'ace_time::ExtendedZoneProcessor::compareEraToYearMonth(ace_time::extended::ZoneEraBroker, signed char, unsigned char)',
+             'ace_time::ExtendedZoneProcessor::getMostRecentPriorYear(signed char, signed char, signed char, signed char)',
              'ace_time::ExtendedZoneProcessor::compareTransitionToMatchFuzzy(ace_time::extended::Transition const*, ace_time::extended::ZoneMatch const*)',
              'ace_time::ExtendedZoneProcessor::calcInteriorYears(signed char*, unsigned char, signed char, signed char, signed char, signed char)',
              'ace_time::ExtendedZoneProcessor::normalizeDateTuple(ace_time::extended::DateTuple*)',
@@ -29,7 +31,7 @@ def run(R):
     except PyOutOfReach as e:
         R.out_of_reach.append(('tools/zonedb/zone_specifier.py', str(e)))
         pyobs = []
-    R.functions['tools/zonedb/zone_specifier.py:{_get_most_recent_prior_year,_compare_transition_to_match_fuzzy}; tools/tzdb/transformer.py:calc_day_of_month'] = dict(generated=len(pyobs), engine='pyvc')
+    R.functions['tools/zonedb/zone_specifier.py:{_get_most_recent_prior_year,_compare_transition_to_match_fuzzy,_compare_transition_to_match,_compare_era_to_year_month}; tools/tzdb/transformer.py:calc_day_of_month'] = dict(generated=len(pyobs), engine='pyvc')
     for name, pc, goal in pyobs:
         obs.append(symex.Obligation(name, 'post', name.split('#')[0], None, list(pc), goal, {'no_entry_state': True}))
     check.discharge(R, obs, timeout=120)
@@ -76,7 +78,7 @@ def run(R):
     if problems:
         zc.violation(R, 'c04', problems, 'props/C04.py bounded part (python workers)')
     R.assumptions += [
-        'P: the translated pairs are each verified against one semantic specification (instantiated over Int for the Python AST and over bit-vectors for the IR): calc_day_of_month / calcStartDayOfMonth, _get_most_recent_prior_year / getMostRecentPriorYear, _compare_transition_to_match_fuzzy / compareTransitionToMatchFuzzy; C++ calcInteriorYears and normalizeDateTuple against their own contracts',
+        'P: the translated pairs are each verified against one semantic specification (instantiated over Int for the Python AST and over bit-vectors for the IR): calc_day_of_month / calcStartDayOfMonth, _get_most_recent_prior_year / getMostRecentPriorYear, _compare_transition_to_match_fuzzy / compareTransitionToMatchFuzzy, _compare_transition_to_match / compareTransitionToMatch, _compare_era_to_year_month / compareEraToYearMonth; C++ calcInteriorYears and normalizeDateTuple against their own contracts',
         'BOUNDED (never counted as proved): whole-object equality. The C++ tables are decoded to the Python data model through the decoders proved under C12; Python answers are compared with the zic oracle at the instants where C01 compares the C++ answers, and with the offset the C++ processor selects (findTransitionForDateTime) for local date-times',
         'quick tier: 4 of the 8 option combinations and every third year; thorough: all 8 and every year',
     ]
